@@ -16,18 +16,27 @@ def V(ctx, mech, what, w, rp):
     ctx.violation('C19', 'PartialBoundary', mech, what, w, rp)
 
 
+class SizedPartial(functools.partial):
+    def __len__(self):
+        return len(self.args)
+
+
 @core.guarded(None)
 def check_partial(ctx, fparams, npos, kws, nested=None):
     """One binding: p = partial(f, *[0]*npos, **{k: 5})  (optionally nested:
     partial(partial(f, *a1, **k1), *a2, **k2))."""
     import sigtools
     from sigtools import signatures
-    f = sigs.make_func(fparams, name='pf%d' % next(_n), body='pass')
-    p = functools.partial(f, *([0] * npos), **{k: 5 for k in kws})
+    serial = next(_n)
+    f = sigs.make_func(fparams, name='pf%d' % serial, body='pass')
+    # every fourth partial object is an instance of a subclass with a length (the number of bound positionals):
+    # falsy when only keywords are bound -- "is this a partial object" is a type question, never a truth value
+    P = SizedPartial if serial % 4 == 0 else functools.partial
+    p = P(f, *([0] * npos), **{k: 5 for k in kws})
     layers = [(npos, tuple(kws))]
     if nested:
         n2, k2 = nested
-        p = functools.partial(p, *([0] * n2), **{k: 6 for k in k2})
+        p = P(p, *([0] * n2), **{k: 6 for k in k2})
         layers.append((n2, tuple(k2)))
     rp = dict(workload='partial', fparams=sigs.to_json(fparams), layers=[[a, list(b)] for a, b in layers])
     w = {'func': show_params(fparams), 'bound': [{'positionals': a, 'keywords': list(b)} for a, b in layers]}
@@ -290,6 +299,48 @@ def check_forwarding_partial_kwdefault(ctx, oparams, cparams, rebind):
           dict(w, result=show(sig), plain=show(plain)), rp)
 
 
+TWO_LEVEL_SRC = '''
+def inner_a(%(a)s): pass
+def inner_b(%(b)s): pass
+def mid(count, first, second, *a, **k):
+    return first(*a, **k)
+def outer(f, g1, g2, *args, **kwargs):
+    return f(len(args), g1, g2, *args, **kwargs)
+'''
+
+
+@core.guarded(None)
+def check_two_level_partial(ctx, aparams, bparams_):
+    """partial(outer, mid, inner_a, inner_b): outer hands a run-time value and two of the bound positionals on to
+    its first one, which forwards to the first of those two -- the bound positionals must keep their slots on
+    the way down.  Expected: mask(forwards(outer, forwards(mid, inner_a), 3), 3)."""
+    import sigtools
+    from sigtools import signatures
+    g = sigs.compile_module(TWO_LEVEL_SRC % dict(a=sigs.render(aparams), b=sigs.render(bparams_)), tag='vpart2')
+    p = functools.partial(g['outer'], g['mid'], g['inner_a'], g['inner_b'])
+    rp = dict(workload='partial-two-level', aparams=sigs.to_json(aparams), bparams=sigs.to_json(bparams_))
+    w = {'program': 'def mid(count, first, second, *a, **k): return first(*a, **k); def outer(f, g1, g2, *args, **kwargs): return f(len(args), g1, g2, *args, **kwargs)',
+         'inner_a': show_params(aparams), 'inner_b': show_params(bparams_), 'partial': 'partial(outer, mid, inner_a, inner_b)'}
+    ctx.evaluated()
+    ctx.count('C19.two_level_partials')
+    try:
+        sig = sigtools.signature(p)
+    except Exception as e:
+        V(ctx, 'forwarding-partial-raises', 'sigtools.signature raised %s on a two-level forwarding partial' % type(e).__name__,
+          dict(w, exception=repr(e)), rp)
+        return
+    S = signatures.signature
+    try:
+        want = signatures.mask(signatures.forwards(S(g['outer']), signatures.forwards(S(g['mid']), S(g['inner_a'])), 3), 3)
+    except ValueError:
+        want = S(p)
+    ctx.nontrivial(('two-level', sigs.shape_key(aparams), sigs.shape_key(bparams_)))
+    if bparams(want) != bparams(sig):
+        V(ctx, 'two-level-forwarding-partial-differs-from-declared',
+          'sigtools.signature(partial(outer, mid, inner_a, inner_b)) differs from the declared equivalent',
+          dict(w, result=show(sig), declared=show(want)), rp)
+
+
 def case_no_mutation(oparams, cparams):
     # (replacing defaults is only meaningful when the callee has positional parameters; kept as a hook)
     return False
@@ -388,6 +439,8 @@ def run(ctx):
                                  dress=rnd.choice((None, None, 'posoargs-func', 'kwoargs')))
         if rnd.random() < 0.2:
             check_forwarding_partial_kwdefault(ctx, rnd.choice(outers), rnd.choice(callees), rebind=rnd.random() < 0.5)
+        if rnd.random() < 0.1:
+            check_two_level_partial(ctx, rnd.choice(callees), rnd.choice(callees))
 
 
 def replay(ctx, rec):
@@ -397,6 +450,8 @@ def replay(ctx, rec):
         if nested:
             nested = (nested[0], tuple(nested[1]))
         check_partial(ctx, sigs.from_json(rec['fparams']), layers[0][0], tuple(layers[0][1]), nested=nested)
+    elif rec['workload'] == 'partial-two-level':
+        check_two_level_partial(ctx, sigs.from_json(rec['aparams']), sigs.from_json(rec['bparams']))
     elif rec['workload'] == 'partial-forwarding-kwdefault':
         check_forwarding_partial_kwdefault(ctx, sigs.from_json(rec['oparams']), sigs.from_json(rec['cparams']), rec['rebind'])
     else:
